@@ -163,6 +163,11 @@ def run_sched(ctx, pid, profiles, n_quick, n_thorough, extra=None, monitor_profi
             failures += monitors.mon_guard(monitors.Trace(s, impl[s["name"]]))
         if s.get("monitor") == "window" and pid in s.get("props", []):
             failures += monitors.mon_window(monitors.Trace(s, impl[s["name"]]))
+        if s.get("monitor") == "window" and pid == "C05":
+            fs = monitors.mon_C05(monitors.Trace(s, impl[s["name"]]))
+            for f in fs:
+                f["no_shrink"] = True
+            failures += fs
     searched = 0
     if (divergences or not ctx["proof_ok"]) and not [f for f in failures if f["signature"] not in ctx.get("known_sigs", set())] and not ctx.get("replay"):
         # directed search on the implementation alone: the diverging schedules' neighbourhood plus a fresh larger sample
@@ -238,7 +243,7 @@ def stress2_extra(pid):
             for d in out:
                 if not d.get("stress2"):
                     continue
-                runs.append({k: d[k] for k in ("threads", "millis", "operations", "min_total_seen", "final_total", "keys_balance", "panic_count", "hung")})
+                runs.append({k: d[k] for k in ("threads", "millis", "operations", "min_total_seen", "max_total_seen", "final_total", "keys_balance", "panic_count", "hung")})
                 res["evaluations"] += d["operations"]
                 rep = dict(threads=threads, millis=millis, seed=seed + n, replay="./.build/target/debug/cached-verif-harness stress2 %d %d %d" % (threads, millis, seed + n), observed=d)
                 if d["hung"]:
@@ -246,6 +251,8 @@ def stress2_extra(pid):
                     continue
                 if pid in ("C01", "C05") and d["min_total_seen"] < 0:
                     res["failures"].append(dict(rep, signature="negative-total-under-concurrency", what="total weight used went down to %d during a concurrent run (sweeps, deletes, evictions on the same keys)" % d["min_total_seen"]))
+                if pid == "C01" and d["max_total_seen"] > d["cache_weight"]:
+                    res["failures"].append(dict(rep, signature="total-over-limit-under-concurrency", what="total weight used reached %d > cache weight %d during a concurrent run without any weight-changing upsert" % (d["max_total_seen"], d["cache_weight"])))
                 if pid in ("C01", "C05") and d["final_total"] != 0:
                     res["failures"].append(dict(rep, signature="weight-left-after-deleting-everything", what="after every key was deleted and acknowledged the total weight used is %d, not 0" % d["final_total"]))
                 if pid in ("C05", "C16") and d["keys_balance"] != 0:
@@ -255,6 +262,46 @@ def stress2_extra(pid):
                         res["failures"].append(dict(rep, signature="background-thread-died-under-stress", what="%s died: %s" % (role, st)))
         res["extra"]["perturbed_stress_runs"] = runs
         res["rule"] += "; plus %d free-running perturbed stress run(s) (key Hash occasionally busy-waits) judged by public invariants" % len(plan)
+    return extra
+
+
+def stress_quiescent_extra(pid, inner=None):
+    """A free-running multi-threaded run (2 shards, queue / pool / buffer of 1, sweeps, evictions, consumer stalled and
+    resumed); when it is over and the queue is drained, the counters are compared with the internal state."""
+    def extra(ctx, res, allsched, impl):
+        import subprocess
+        if inner:
+            inner(ctx, res, allsched, impl)
+        binary, seed, tier = ctx["binary"], ctx["seed"], ctx["tier"]
+        plan = [(4, 1200)] if tier == "quick" else [(2, 5000), (4, 5000), (8, 8000)]
+        runs = []
+        for n, (threads, millis) in enumerate(plan):
+            try:
+                p = subprocess.run([binary, "stress", str(threads), str(millis), str(seed + 100 + n)], capture_output=True, text=True, timeout=millis / 1000.0 + 90)
+                out = [json.loads(l) for l in p.stdout.splitlines() if l.startswith("{")]
+            except subprocess.TimeoutExpired:
+                res["failures"].append(dict(signature="stress-run-hung", what="the stress run with %d threads did not finish" % threads, threads=threads, millis=millis, seed=seed + 100 + n))
+                continue
+            q = [d for d in out if d.get("stress_quiescent")]
+            st = [d for d in out if d.get("stress")]
+            if st:
+                res["evaluations"] += st[0]["operations"]
+            if not q:
+                continue
+            d = q[0]
+            runs.append(d)
+            rep = dict(threads=threads, millis=millis, seed=seed + 100 + n, replay="./.build/target/debug/cached-verif-harness stress %d %d %d" % (threads, millis, seed + 100 + n), observed=d)
+            U = 1 << 64
+            if pid == "C15" and (d["buffered"] + d["access_added"] + d["access_dropped"]) % U != d["hits"]:
+                res["failures"].append(dict(rep, signature="hit-not-accounted-under-concurrency", what="after a concurrent run: hits %d != buffered %d + AccessAdded %d + AccessDropped %d" % (d["hits"], d["buffered"], d["access_added"], d["access_dropped"])))
+            if pid == "C16" and (d["keys_added"] - d["keys_deleted"]) % U != d["keys_held"]:
+                res["failures"].append(dict(rep, signature="keys-miscounted-under-concurrency", what="after a concurrent run: KeysAdded %d - KeysDeleted %d != keys held %d" % (d["keys_added"], d["keys_deleted"], d["keys_held"])))
+            if pid == "C16" and (d["weight_added"] - d["weight_removed"]) % U != d["used"] % U:
+                res["failures"].append(dict(rep, signature="weight-miscounted-under-concurrency", what="after a concurrent run: WeightAdded %d - WeightRemoved %d != total weight used %d" % (d["weight_added"], d["weight_removed"], d["used"])))
+            if pid == "C05" and (d["used"] != d["charges"] or not d["ids_match"]):
+                res["failures"].append(dict(rep, signature="accounting-broken-under-concurrency", what="after a concurrent run: total %d, sum of charges %d, charged ids %s the ids of the held keys" % (d["used"], d["charges"], "=" if d["ids_match"] else "!=")))
+        res["extra"]["stress_quiescent_runs"] = runs
+        res["rule"] += "; plus %d free-running stress run(s) whose counters are compared with the internal state at quiescence" % len(plan)
     return extra
 
 
@@ -295,7 +342,7 @@ PROPS.update({
     "C03": dict(module="C03", run=mk("C03", ["roomy", "awaited", "ttl", "ttlchain", "general"], 250, 4000), components=["store", "weights", "admission", "ticker", "api", "queue_worker", "time"],
                 assumptions=["partial: phase-contiguous schedules; 'no memory pressure' is stated per executed put (it fits the free space)"]),
     "C04": dict(module="C04", run=mk("C04", ["general", "ttl", "awaited", "queue1"], 250, 4000), components=["store", "api", "queue_worker", "weights", "ticker"]),
-    "C05": dict(module="C05", run=mk("C05", ["general", "queue1", "ttl", "evict", "evict2"], 250, 4000, extra=stress2_extra("C05")), components=["weights", "store", "api", "queue_worker", "ticker", "admission"]),
+    "C05": dict(module="C05", run=mk("C05", ["general", "queue1", "ttl", "evict", "evict2"], 250, 4000, extra=stress_quiescent_extra("C05", stress2_extra("C05"))), components=["weights", "store", "api", "queue_worker", "ticker", "admission"]),
     "C06": dict(module="C06", run=mk("C06", ["evict2", "evict", "general"], 270, 4000), components=["admission", "weights", "sketch", "tinylfu", "store"]),
     "C07": dict(module="C07", run=mk("C07", ["general", "ttl", "awaited"], 250, 4000), components=["store", "api", "time", "queue_worker"]),
     "C08": dict(module="C08", run=mk("C08", ["general", "ttl", "roomy", "ttlchain"], 250, 4000), components=["store", "api", "ticker", "weights", "time", "queue_worker"]),
@@ -333,12 +380,12 @@ PROPS.update({
                 assumptions=["each access to status / waker slot is one atomic action because it happens under its parking_lot mutex; Release/Acquire on the flag is modelled as sequentially consistent"]),
     "C13": dict(module="C13", run=mk("C13", ["shutdown", "queue1", "general"], 250, 4000), components=["api", "queue_worker", "pool", "store", "weights", "ticker", "roles"],
                 assumptions=["partial: 'shutdown() returns' and 'every acknowledgement completes' are proved as enabledness/progress facts of the model; that the worker and consumer threads keep being scheduled is assumed"]),
-    "C15": dict(module="C15", run=mk("C15", ["reads", "evict", "general"], 250, 4000), components=["pool", "stats", "tinylfu", "api"],
+    "C15": dict(module="C15", run=mk("C15", ["reads", "evict", "general"], 250, 4000, extra=stress_quiescent_extra("C15")), components=["pool", "stats", "tinylfu", "api"],
                 assumptions=["partial: 'never blocks' is enabledness in the model; that crossbeam's select!{send, default} does not block is exercised with a gated (stalled) and an exited consumer, not proved"]),
     "C17": dict(module="C17", run=mk("C17", ["boundary", "general", "ttl", "queue1"], 300, 5000, extra=release_extra("C17")), components=["panics", "roles", "api", "store", "weights", "admission", "ticker", "sketch", "tinylfu", "queue_worker", "time", "pool"],
                 assumptions=["partial: covers the panic sites the model represents (assert!/unwrap/expect/index operations/i64 overflow under the debug profile/SystemTime addition); allocation failure, thread spawn failure and panics inside dependencies are not modelled",
                              "documented preconditions: positive weights, a well-formed upsert, an upsert that turns into a put carries a value"]),
-    "C16": dict(module="C16", run=mk("C16", ["general", "reads", "ttl", "evict"], 250, 4000), components=["stats", "stats.hit_ratio", "store", "weights", "queue_worker", "api", "admission"]),
+    "C16": dict(module="C16", run=mk("C16", ["general", "reads", "ttl", "evict"], 250, 4000, extra=stress_quiescent_extra("C16")), components=["stats", "stats.hit_ratio", "store", "weights", "queue_worker", "api", "admission"]),
 })
 
 
